@@ -5,6 +5,7 @@ import (
 	"fmt"
 	"runtime/debug"
 	"sort"
+	"strings"
 	"sync"
 	"testing/synctest"
 	"time"
@@ -75,6 +76,12 @@ func genC43(r *simkit.Rand, tier string) *simkit.Plan {
 		k := r.Range(1, 3)
 		p.Knobs[fmt.Sprintf("t%d_var", t)] = int64(v)
 		p.Knobs[fmt.Sprintf("t%d_k", t)] = int64(k)
+		if r.Chance(0.1) {
+			p.Knobs[fmt.Sprintf("t%d_conn", t)] = 1 // the connection of a preferred peer
+		}
+		if r.Chance(0.15) {
+			p.Knobs[fmt.Sprintf("t%d_orig", t)] = 1 // originated by a preferred peer, relayed by whatever the connection is
+		}
 		need += 4 + 2*k
 	}
 	// spawn order and release choices
@@ -128,6 +135,12 @@ func genC43PoisonBurst(r *simkit.Rand, p *simkit.Plan) *simkit.Plan {
 		}
 		p.Knobs[fmt.Sprintf("t%d_var", t)] = int64(v)
 		p.Knobs[fmt.Sprintf("t%d_k", t)] = int64(k)
+		if t >= nPoison+max && r.Chance(0.5) {
+			p.Knobs[fmt.Sprintf("t%d_orig", t)] = 1 // arrives when the throttler is full: a preferred peer's message relayed by a regular peer
+		}
+		if t >= nPoison && r.Chance(0.08) {
+			p.Knobs[fmt.Sprintf("t%d_conn", t)] = 1
+		}
 	}
 	last := simkit.Step{Op: "release", I: []int64{-1}} // the goroutine that parked most recently
 	for t := 0; t < nPoison; t++ {
@@ -152,6 +165,8 @@ func genC43PoisonBurst(r *simkit.Rand, p *simkit.Plan) *simkit.Plan {
 
 type taskState struct {
 	id, variant, k int
+	connPref       bool // received over the connection of a preferred peer (exempt from the throttler by design)
+	origPref       bool // originated (message.Peer()) by a preferred peer; says nothing about the connection it came over
 	spawned, done  bool
 	result         string
 	logged         bool
@@ -172,19 +187,20 @@ type c43world struct {
 	taskOf map[uint64]int // goroutine -> task
 	tasks  []*taskState
 
-	log         []string
-	violKind    string
-	violMsg     string
-	contended   bool
-	refused     int
-	windowHit   int
-	doubleEnd   int
-	blacklisted int
-	maxSeen     int
-	states      map[[2]int]bool
-	panicMsg    string
-	panicSt     []byte
-	harness     string
+	log                          []string
+	violKind                     string
+	violMsg                      string
+	contended                    bool
+	refused                      int
+	windowHit                    int
+	doubleEnd                    int
+	exemptStarts, relayedRefused int
+	blacklisted                  int
+	maxSeen                      int
+	states                       map[[2]int]bool
+	panicMsg                     string
+	panicSt                      []byte
+	harness                      string
 }
 
 // taskFor must be called with the lock held.
@@ -196,13 +212,16 @@ func (w *c43world) taskFor(gid uint64) *taskState {
 	return &taskState{id: -1}
 }
 
-// counts must be called with the lock held: tasks that asked and are between start and end; tasks admitted but not started.
+// subject: the bound applies to every task received over a regular (not preferred) connection.
+func (t *taskState) subject() bool { return !t.connPref }
+
+// counts must be called with the lock held: tasks from regular connections between start and end; tasks admitted but not started.
 func (w *c43world) counts() (running, window int) {
 	for _, t := range w.tasks {
-		if t.asked && t.started && (!t.ended || t.inWork) {
+		if t.subject() && t.started && (!t.ended || t.inWork) {
 			running++ // a task that still works after having called EndProcessing is still running
 		}
-		if t.asked && t.admitted && !t.started {
+		if t.subject() && t.asked && t.admitted && !t.started {
 			window++
 		}
 	}
@@ -232,7 +251,7 @@ func (w *c43world) work(what string) {
 	w.mu.Lock()
 	t := w.taskFor(gid)
 	t.inWork = true
-	if t.asked && t.started && t.ended {
+	if t.subject() && t.started && t.ended {
 		running, _ := w.counts()
 		w.log = append(w.log, fmt.Sprintf("  t%d works in %s after its EndProcessing, running=%d", t.id, what, running))
 		if running > w.max && w.violKind == "" {
@@ -270,6 +289,9 @@ func (g *gatedThrottler) CanProcess() bool {
 	}
 	if !ok {
 		w.refused++
+		if t.origPref && !t.connPref {
+			w.relayedRefused++
+		}
 	}
 	w.log = append(w.log, fmt.Sprintf("  t%d CanProcess=%v running=%d window=%d", t.id, ok, running, window))
 	return ok
@@ -289,12 +311,15 @@ func (g *gatedThrottler) StartProcessing() {
 		w.maxSeen = running
 	}
 	w.log = append(w.log, fmt.Sprintf("  t%d StartProcessing returned running=%d asked=%v admitted=%v", t.id, running, t.asked, t.admitted))
-	if !t.asked {
-		// cannot happen with the generated messages (no self / preferred-peer messages); such a task is not counted
+	if !t.subject() {
+		w.exemptStarts++ // a preferred peer's own connection: started without asking by design, not counted
 		return
 	}
 	if running > w.max && w.violKind == "" {
 		switch {
+		case !t.asked:
+			w.violKind = "started-without-asking"
+			w.violMsg = fmt.Sprintf("task %d came over a regular connection (originator preferred: %v) and started without asking the throttler; %d tasks from regular connections run at the same time, max %d", t.id, t.origPref, running, w.max)
 		case !t.admitted:
 			w.violKind = "started-after-refusal"
 			w.violMsg = fmt.Sprintf("task %d started although CanProcess had returned false; %d tasks run at the same time, max %d", t.id, running, w.max)
@@ -409,6 +434,7 @@ func (w *c43world) build(c *simkit.Ctx) messageHandler {
 	}
 	switch w.comp {
 	case compSingle, compMulti:
+		preferred := &p2pmocks.PeersHolderStub{ContainsCalled: func(pid core.PeerID) bool { return strings.HasPrefix(string(pid), "pref-") }}
 		af := &processMock.P2PAntifloodHandlerStub{CanProcessMessageCalled: antiflood, BlacklistPeerCalled: func(_ core.PeerID, _ string, _ time.Duration) {
 			w.mu.Lock()
 			w.blacklisted++
@@ -417,7 +443,7 @@ func (w *c43world) build(c *simkit.Ctx) messageHandler {
 		if w.comp == compSingle {
 			sdi, err := interceptors.NewSingleDataInterceptor(interceptors.ArgSingleDataInterceptor{
 				Topic: "verif", DataFactory: &stubFactory{w}, Processor: &stubProcessor{w}, Throttler: gt, AntifloodHandler: af,
-				WhiteListRequest: &testscommon.WhiteListHandlerStub{}, PreferredPeersHolder: &p2pmocks.PeersHolderStub{}, CurrentPeerId: "self",
+				WhiteListRequest: &testscommon.WhiteListHandlerStub{}, PreferredPeersHolder: preferred, CurrentPeerId: "self",
 			})
 			if err != nil {
 				c.HarnessErr("NewSingleDataInterceptor: %v", err)
@@ -427,7 +453,7 @@ func (w *c43world) build(c *simkit.Ctx) messageHandler {
 		}
 		mdi, err := interceptors.NewMultiDataInterceptor(interceptors.ArgMultiDataInterceptor{
 			Topic: "verif", Marshalizer: &marshal.GogoProtoMarshalizer{}, DataFactory: &stubFactory{w}, Processor: &stubProcessor{w}, Throttler: gt, AntifloodHandler: af,
-			WhiteListRequest: &testscommon.WhiteListHandlerStub{}, PreferredPeersHolder: &p2pmocks.PeersHolderStub{}, CurrentPeerId: "self",
+			WhiteListRequest: &testscommon.WhiteListHandlerStub{}, PreferredPeersHolder: preferred, CurrentPeerId: "self",
 		})
 		if err != nil {
 			c.HarnessErr("NewMultiDataInterceptor: %v", err)
@@ -451,10 +477,24 @@ func (w *c43world) build(c *simkit.Ctx) messageHandler {
 	}
 }
 
+func (t *taskState) originator() string {
+	if t.origPref {
+		return fmt.Sprintf("pref-originator-%d", t.id)
+	}
+	return fmt.Sprintf("origin-%d", t.id)
+}
+
+func (t *taskState) connection() string {
+	if t.connPref {
+		return fmt.Sprintf("pref-connection-%d", t.id)
+	}
+	return fmt.Sprintf("peer-%d", t.id)
+}
+
 func (w *c43world) message(t *taskState) p2p.MessageP2P {
 	m := &marshal.GogoProtoMarshalizer{}
 	msg := &processMock.P2PMessageMock{
-		FromField: []byte(fmt.Sprintf("origin-%d", t.id)), PeerField: core.PeerID(fmt.Sprintf("origin-%d", t.id)),
+		FromField: []byte(t.originator()), PeerField: core.PeerID(t.originator()),
 		SeqNoField: []byte{byte(t.variant), byte(t.id)}, TopicField: "verif", SignatureField: []byte("sig"),
 	}
 	item := func(j int) []byte {
@@ -508,7 +548,7 @@ func (w *c43world) runTask(h messageHandler, t *taskState) {
 		}
 	}()
 	w.register(t.id)
-	err := h.ProcessReceivedMessage(w.message(t), core.PeerID(fmt.Sprintf("peer-%d", t.id)))
+	err := h.ProcessReceivedMessage(w.message(t), core.PeerID(t.connection()))
 	w.mu.Lock()
 	t.done = true
 	t.result = "nil"
@@ -570,7 +610,12 @@ func execC43(c *simkit.Ctx) bool {
 		if k > 4 {
 			k = 4
 		}
-		w.tasks = append(w.tasks, &taskState{id: t, variant: v, k: k})
+		ts := &taskState{id: t, variant: v, k: k}
+		if w.comp != compResolver { // resolvers have no preferred-peer exemption
+			ts.connPref = p.Knob(fmt.Sprintf("t%d_conn", t), 0) == 1
+			ts.origPref = p.Knob(fmt.Sprintf("t%d_orig", t), 0) == 1
+		}
+		w.tasks = append(w.tasks, ts)
 	}
 	c.Eventf("comp=%s max=%d tasks=%d", compNames[w.comp], w.max, nTasks)
 	simkit.Bubble(c, func() {
@@ -649,6 +694,12 @@ func execC43(c *simkit.Ctx) bool {
 	}
 	if w.doubleEnd > 0 {
 		c.Probe("end_without_running_task")
+	}
+	if w.exemptStarts > 0 {
+		c.Probe("preferred_connection_started_without_asking")
+	}
+	if w.relayedRefused > 0 {
+		c.Probe("relayed_message_of_preferred_originator_refused_when_full")
 	}
 	if w.blacklisted > 0 {
 		c.Probe("peer_blacklisted_for_wrong_version_or_undecodable")
